@@ -5,15 +5,18 @@
 //                          ch is written by the harness after the step: 1 = the caller's context was cancelled before the
 //                          step and it returned Canceled (the select choice when both Await cases were ready)
 //                 [4 i]    cancel the context of caller i
-//                 [5 i k]  the user callback running on goroutine actor i returns k: 0 value i+1, 1 error i+1, 2 context.Canceled
+//                 [5 i k]  the user callback running on goroutine actor i returns k: 0 value i+1, 1 error i+1, 2 context.Canceled,
+//                          k>=3 the non-zero value k-2 together with error i+1 (Once passes (0, error) on)
 //        observation: two integers per actor (creation order; a callback goroutine becomes an actor when the callback is entered)
-//                 1 0 caller at gate 1   2 0 caller blocked in Await   3 v returned (v,nil)   4 0 returned Canceled   5 e returned error e
+//                 1 0 caller at gate 1   2 0 caller blocked in Await   3 v returned (v,nil)   4 0 returned Canceled
+//                 5 p returned (v, error e): p = v<<20 + e
 //                 6 c goroutine inside the callback (c=1 its ctx was cancelled on entry)   7 0 at gate 2   8 0 at gate 3   9 0 finished
 //                 10 0 goroutine parked inside Promise.SetResult between the swap of isDone and the publication (site 0)
 //                 11 0 the call panicked (recovered by the actor wrapper)
-// memo   events:  [1] call the memoized function in a new actor     [2 i k] fn running on actor i returns k: 0 value i+1, 1 error i+1
+// memo   events:  [1] call the memoized function in a new actor
+//                 [2 i k] fn running on actor i returns k: 0 (i+1, nil), k>=1 the value k-1 together with error i+1
 //                 [3 n w] n new actors call it at the same moment (they race for real); w (written by the harness) = which one entered fn
-//        observation per actor: 6 0 inside fn   2 0 blocked on done   3 v / 5 e returned
+//        observation per actor: 6 0 inside fn   2 0 blocked on done   3 v returned (v,nil) / 5 p returned (v, error e), p = v<<20 + e
 package oncex
 
 import (
@@ -44,7 +47,7 @@ func (e *idErr) Error() string { return fmt.Sprintf("err%d", e.id) }
 
 var errFree = errors.New("teardown")
 
-// result of a call: code 3 value / 4 Canceled / 5 error id
+// result of a call: code 3 value / 4 Canceled / 5 (value, error id) packed as value<<20 + id
 type result struct {
 	code, val uint64
 }
@@ -58,9 +61,9 @@ func classify(v int, err error) result {
 	default:
 		var ie *idErr
 		if errors.As(err, &ie) {
-			return result{5, uint64(ie.id)}
+			return result{5, uint64(v)<<20 + uint64(ie.id)}
 		}
-		return result{5, 0}
+		return result{5, uint64(v) << 20}
 	}
 }
 
@@ -73,6 +76,7 @@ type cdata struct {
 type gdata struct {
 	entryCanc bool
 	outcome   int
+	starter   int // the caller actor whose section started this invocation
 }
 
 // ---------------------------------------------------------------- once
@@ -125,6 +129,10 @@ func (s *sys) cb(ctx context.Context) (int, error) {
 		return 0, &idErr{a.ID + 1}
 	case 2:
 		return 0, context.Canceled
+	}
+	if d.outcome >= 3 {
+		// a value together with the error: Once must hand (zero value, error) to every caller
+		return d.outcome - 2, &idErr{a.ID + 1}
 	}
 	return 0, errFree
 }
@@ -205,6 +213,7 @@ func (s *sys) exec(ev []uint64) (obs []uint64, ok bool) {
 		}
 		if len(s.c.Acts) > n {
 			s.entries++
+			s.c.Acts[n].Data.(*gdata).starter = i
 			s.w.Count("once.cb_entries", 1)
 			if s.c.Acts[n].Data.(*gdata).entryCanc {
 				s.w.Count("once.cb_entered_with_cancelled_ctx", 1)
@@ -219,7 +228,7 @@ func (s *sys) exec(ev []uint64) (obs []uint64, ok bool) {
 		d.cancelled = true
 		d.cancel()
 		synctest.Wait()
-	case ev[0] == 5 && len(ev) == 3 && ev[2] <= 2:
+	case ev[0] == 5 && len(ev) == 3 && ev[2] <= 64:
 		i := int(ev[1])
 		if i >= len(s.c.Acts) || s.c.Acts[i].Kind != kCb || s.c.Acts[i].InUser() == 0 {
 			return nil, false
@@ -231,6 +240,19 @@ func (s *sys) exec(ev []uint64) (obs []uint64, ok bool) {
 		}
 		if ev[2] == 2 {
 			s.canceledCb++
+		}
+		if ev[2] != 0 && ev[2] != 2 {
+			// the situation of clause 9: the starter's context is already cancelled when the callback fails with an
+			// error of its own, while another caller with a live context is waiting for this invocation
+			if st := a.Data.(*gdata).starter; s.c.Acts[st].Data.(*cdata).cancelled {
+				s.w.Count("once.cb_error_with_starter_cancelled", 1)
+				for _, b := range s.c.Acts {
+					if b.Kind == kCaller && !b.Done() && !b.Parked() && !b.Data.(*cdata).cancelled {
+						s.w.Count("once.cb_error_with_starter_cancelled_and_live_waiter", 1)
+						break
+					}
+				}
+			}
 		}
 		s.c.StepUser(a)
 	default:
@@ -278,6 +300,14 @@ func (s *sys) gen(r *rand.Rand, maxCallers int) []uint64 {
 			return []uint64{4, uint64(liveWaiting[r.IntN(len(liveWaiting))])}
 		}
 	}
+	// a callback is running, its starter's context is live and somebody else waits with a live context: cancel the starter
+	// now and then (the invocation then fails "because of" the cancelled caller; the others must not inherit that)
+	if len(inUser) > 0 && len(liveWaiting) >= 2 && r.IntN(100) < 12 {
+		st := s.c.Acts[inUser[0]].Data.(*gdata).starter
+		if !s.c.Acts[st].Data.(*cdata).cancelled {
+			return []uint64{4, uint64(st)}
+		}
+	}
 	for tries := 0; tries < 200; tries++ {
 		x := r.IntN(100)
 		switch {
@@ -308,6 +338,9 @@ func (s *sys) gen(r *rand.Rand, maxCallers int) []uint64 {
 				k = 2
 			case y < 55 && s.c.Acts[g].Data.(*gdata).entryCanc && s.canceledCb < 4:
 				k = 2
+			case y >= 85:
+				// an error accompanied by a non-zero value
+				k = uint64(3 + r.IntN(6))
 			}
 			return []uint64{5, uint64(g), k}
 		}
@@ -330,7 +363,7 @@ func (s *sys) count(ev, obs []uint64, prev []uint64) {
 	names := map[uint64]string{1: "resolve", 3: "step", 4: "cancel", 5: "cb_return"}
 	s.w.Count("once.ev."+names[ev[0]], 1)
 	if ev[0] == 5 {
-		s.w.Count(fmt.Sprintf("once.ev.cb_return.%d", ev[2]), 1)
+		s.w.Count(fmt.Sprintf("once.ev.cb_return.%d", min(ev[2], 3)), 1)
 	}
 	if ev[0] == 1 && ev[1] == 1 {
 		s.w.Count("once.ev.resolve.precancelled", 1)
@@ -484,8 +517,10 @@ func (s *msys) fn() (int, error) {
 	switch a.Data.(*mdata).outcome {
 	case 0:
 		return a.ID + 1, nil
-	case 1:
-		return 0, &idErr{a.ID + 1}
+	}
+	if k := a.Data.(*mdata).outcome; k >= 1 {
+		// the value k-1 together with an error: every caller must receive exactly this pair
+		return k - 1, &idErr{a.ID + 1}
 	}
 	return 0, errFree
 }
@@ -521,7 +556,7 @@ func (s *msys) exec(ev []uint64) (obs []uint64, ok bool) {
 			d.res = classify(v, err)
 		})
 		synctest.Wait()
-	case ev[0] == 2 && len(ev) == 3 && ev[2] <= 1:
+	case ev[0] == 2 && len(ev) == 3 && ev[2] <= 64:
 		i := int(ev[1])
 		if i >= len(s.c.Acts) || s.c.Acts[i].InUser() == 0 {
 			return nil, false
@@ -581,8 +616,11 @@ func (s *msys) gen(r *rand.Rand, maxCallers int, pReturn int) []uint64 {
 		switch {
 		case x < pReturn && len(inUser) > 0:
 			k := uint64(0)
-			if r.IntN(3) == 0 {
-				k = 1
+			switch r.IntN(6) {
+			case 0:
+				k = 1 // (0, error)
+			case 1:
+				k = uint64(2 + r.IntN(40)) // (non-zero value, error)
 			}
 			return []uint64{2, uint64(inUser[r.IntN(len(inUser))]), k}
 		case x >= pReturn && len(s.c.Acts) < maxCallers:
@@ -605,7 +643,13 @@ func (s *msys) count(ev, obs []uint64) {
 	case 1:
 		s.w.Count("memo.ev.call", 1)
 	case 2:
-		s.w.Count(fmt.Sprintf("memo.ev.fn_return.%d", ev[2]), 1)
+		s.w.Count(fmt.Sprintf("memo.ev.fn_return.%d", min(ev[2], 2)), 1)
+		if ev[2] >= 2 {
+			s.w.Count("memo.fn_returns_value_with_error", 1)
+			if len(obs) >= 4 {
+				s.w.Count("memo.value_with_error_delivered_to_other_callers", 1)
+			}
+		}
 	case 3:
 		s.w.Count("memo.ev.burst", 1)
 		if len(obs) == int(2*ev[1]) {
